@@ -60,27 +60,58 @@ def build(ctx, force=None, root_kind=None, text=None):
     b.filename = filename
     W.prog = prog
     W.filename = filename
+    W.eq_mode = bool(cfg.on.get("eqmgr"))
     ctx.case["program"] = prog.text
     ctx.case["python"] = "%d.%d" % sys.version_info[:2]
     return b
 
 
-def cleanup(b):
-    W = b.W
-    W.closed = True
-    W.probe_hook = None
-    for obj in reversed(W.genlikes):
+def _finish(obj):
+    """Close a generator-like for good.  A generated program may suspend again while it
+    handles GeneratorExit (a trap in a finally block): close() then reports that the
+    exit was ignored and leaves the object suspended one step further on, and the
+    garbage collector would later try the same from a finaliser, in an order of its
+    own.  Keep closing until it has really finished (bounded)."""
+    for _ in range(200):
         try:
             if hasattr(obj, "aclose"):
                 try:
                     obj.aclose().send(None)
+                except StopIteration:
+                    return True
+                except RuntimeError as e:
+                    if "ignored GeneratorExit" in str(e):
+                        continue
+                    return True
                 except BaseException:
-                    pass
+                    return True
+                # aclose() itself suspended (awaiting a trap): go round again
+                continue
             else:
                 obj.close()
+                return True
+        except RuntimeError as e:
+            if "ignored GeneratorExit" in str(e):
+                continue
+            return True
         except BaseException:
-            pass
+            return True
+    return False
+
+
+def cleanup(b, root=None):
+    W = b.W
+    W.closed = True
+    W.probe_hook = None
+    clean = True
+    objs = list(reversed(W.genlikes))
+    if root is not None:
+        objs.insert(0, root)
+    for obj in objs:
+        if not _finish(obj):
+            clean = False
     linecache.cache.pop(b.filename, None)
+    return clean
 
 
 class Driver(object):
@@ -141,11 +172,7 @@ class Driver(object):
         finally:
             self.ctx.case["schedule"] = self.schedule
             self.ctx.stat("driver_steps", self.steps)
-            cleanup(self.b)
-            try:
-                root.close()
-            except BaseException:
-                pass
+            cleanup(self.b, root)
             if was:
                 gc.enable()
 
